@@ -381,7 +381,7 @@ func visitInstr(fr *frame, instr ssa.Instruction) continuation {
 // jump moves to block b, with lasso (definite hang) detection on back edges.
 func (fr *frame) jump(b *ssa.BasicBlock) {
 	fr.prevBlock, fr.block = fr.block, b
-	if b.Index <= fr.prevBlock.Index { // candidate back edge
+	if b.Index <= fr.prevBlock.Index && b.Dominates(fr.prevBlock) { // back edge: the target dominates the source
 		i := fr.i
 		if fr.snaps == nil {
 			fr.snaps = map[*ssa.BasicBlock]*loopSnap{}
